@@ -65,7 +65,7 @@ func genConcQuiet(r *rand.Rand, prop string) *Scenario {
 				op := BEOp{Kind: "write", Key: r.IntN(nk)}
 
 				if prop == "C11" && chance(r, 0.6) {
-					op.HasTTL, op.TTLNs = true, pick(r, ms, 3*ms, 20*ms, -ms, -50*ms)
+					op.HasTTL, op.TTLNs = true, pick(r, ms/2, ms, 2*ms, -ms, -50*ms)
 				}
 
 				ops = append(ops, op)
@@ -150,20 +150,16 @@ func (r *beRun) modeConcQuiet() {
 		frac = 0.1
 	}
 
-	// let every per-call TTL of the first phase lapse for longer than DeleteExpiredAfter
+	// quiet cycles until every per-call TTL of the first phase (at most 2ms) has lapsed for longer than
+	// DeleteExpiredAfter, and a few more; every one of them is judged
+	nCycles := 3
 	if prop == "C11" {
-		out.fault("clock_jump")
-
-		if v := e.s.Advance(dur(dea) + 60*time.Millisecond); v != zs.Quiescent {
-			out.Internal = "concquiet: advance " + v.String() + " " + e.s.StuckInfo
-
-			return
-		}
+		nCycles += int((dea + 3*ms) / cfg.JanitorIntervalNs)
 	}
 
 	quiet := 0
 
-	for c := 0; c < 3; c++ {
+	for c := 0; c < nCycles; c++ {
 		before := r.snapshot()
 		wakes := r.janitor.Wakes
 
